@@ -1,7 +1,8 @@
 package main
 
-// C01: GoLite targets (docs/GOLITE_NOTES.md). Theorems: coq/props/C01_Generated.v,
-// table in docs/audit/C01.md section "GoLite".
+// C01: GoLite targets (docs/GOLITE_NOTES.md). Theorems: coq/props/C01_Generated.v (single functions),
+// coq/props/C01_VerifyE2E.v and C01_VerifyE2E_C02.v (the entry point verifier.Verify end to end);
+// tables in docs/audit/C01.md sections "GoLite" and "End-to-end (verifier.Verify)".
 func init() {
 	const v = ".../verifier"
 	const tp = ".../verifier/trustpolicy"
@@ -28,10 +29,11 @@ func init() {
 		{Pkg: sig, Type: "Envelope", Opaque: true},
 		{Pkg: sig, Func: "ParseEnvelope", Oracle: true},
 		{Pkg: sig, Func: "Envelope.Verify", Oracle: true, AnyReceiver: true},
-		// Refused, kept as documentation: `switch err.(type)` over the error of Envelope.Verify() (verifier/verifier.go:731)
+		// translated since GoLite phase 2 (`switch err.(type)` over the error of Envelope.Verify(), verifier.go:731):
+		// C01_e2e_verifyIntegrity_equiv = the model's verify_integrity on facts read off the two oracles above
 		{Pkg: v, Func: "verifyIntegrity", NonNil: true},
-		// the skip decision of notation.Verify. Refused: `notation.ErrorNoApplicableTrustPolicy{Msg: err.Error()}`
-		// (method call on an error value, verifier/verifier.go:249) and reflect.DeepEqual(any, any) (:257)
+		// the skip decision of notation.Verify (translated since phase 2: err.Error() in a message, reflect.DeepEqual
+		// against LevelSkip)
 		{Pkg: tp, Func: "(*OCIDocument).GetApplicableTrustPolicy", Oracle: true},
 		{Pkg: v, Func: "(*verifier).SkipVerify"},
 		// ---- the entry point verifier.Verify, end to end (theorems: coq/props/C01_VerifyE2E.v) ----
